@@ -107,6 +107,7 @@ class Scn:
         self.prov = {}     # id(value) -> step index that produced it
         # the cache root's parent exists (a tempdir natively)
         self.env.vfs.mkdir_p(SBytes.of(ROOT))
+        self.env.vfs.mkdir_p(SBytes.of(ROOT + "/systmp"))      # the process's TMPDIR (the runner sets it the same way)
         self.env.vfs.cwd = SBytes.of(ROOT)
 
     # -- inputs
